@@ -1178,6 +1178,13 @@ def _mk_agg(name):
     def f(self, v, *a, **k):
         if isinstance(v, VArr):
             return getattr(v, name)(*a, **k)
+        if name in ("min", "max") and not a and not k:
+            if isinstance(v, (Sym, int, float)) and not isinstance(v, bool):
+                return v  # reduction of a scalar
+            if isinstance(v, SymSeq) and isinstance(v.template, Sym) and not z3.is_real(v.template.term):
+                return self.eng.seq_extreme(v, name == "max")
+            if isinstance(v, (list, tuple)) and v and all(isinstance(x, (Sym, int)) for x in v):
+                return self.eng.builtins[name](list(v))
         return _agg_list(self, name, v, a, k)
     return f
 
@@ -1252,8 +1259,54 @@ def _skeleton_model(kind):
     return f
 
 
+class CCModel:
+    """cc3d.connected_components / scipy.ndimage.label: uninterpreted labelling with the assumed contract
+    (foreground preserved, labels 1..N all attained); the connectivity semantics itself is assumed (C05)."""
+    calls = []
+
+    def __init__(self, eng):
+        self.eng = eng
+        self.n = 0
+
+    def _label(self, backend, arr):
+        eng = self.eng
+        if not isinstance(arr, VArr):
+            raise Unsupported("connected components of non-array")
+        self.n += 1
+        k = self.n
+        cc = z3.Function(f"cc_{backend}!{k}", Vox, I_)
+        N = z3.Int(f"ccN_{backend}!{k}")
+        v = z3.Const(f"ccv!{k}", Vox)
+        j = z3.Int(f"ccj!{k}")
+        wit = z3.Function(f"ccwit_{backend}!{k}", I_, Vox)
+        inp = lambda q: arr.at(q)
+        eng.assume(z3.And(N >= 0,
+                          z3.ForAll([v], z3.And((cc(v) != 0) == (inp(v) != 0), cc(v) >= 0, cc(v) <= N), patterns=[cc(v)]),
+                          z3.ForAll([j], z3.Implies(z3.And(1 <= j, j <= N), cc(wit(j)) == j), patterns=[wit(j)])),
+                   why=f"assumed contract of the {backend} connected-components backend")
+        out = VArr(cc(arr.space.x), "uint32" if backend == "cc3d" else "int32", arr.space)
+        rec = {"backend": backend, "input": arr, "input_term": arr.term, "input_dtype": arr.dtype_name, "out": out, "N": N}
+        eng.event("cc-call", backend, k)
+        eng.__dict__.setdefault("cc_calls", []).append(rec)
+        return out, SymInt(N)
+
+    def connected_components(self, arr, return_N=False, **k):
+        if k:
+            raise Unsupported("cc3d options (connectivity etc.)")
+        out, N = self._label("cc3d", arr)
+        return (out, N) if return_N else out
+
+    def label(self, arr, structure=None, **k):
+        if structure is not None or k:
+            raise Unsupported("scipy.ndimage.label with a structure")
+        return self._label("scipy", arr)
+
+
 def install(eng):
     np = NpModule(eng)
+    ccm = CCModel(eng)
+    eng.models["cc3d"] = ccm
+    eng.models["scipy.ndimage.label!obj"] = ccm.label
     eng.models["numpy"] = np
     eng.np = np
     eng.models["skimage.morphology.skeletonize!obj"] = _skeleton_model("skeletonize")
